@@ -397,6 +397,45 @@ fn gen_large_session(rng: &mut Rng) -> Session {
     s
 }
 
+/// A decoder under STORE PRESSURE: either a handful of large pictures (352x288 ... 704x576)
+/// or dozens of small ones, all valid, with distinct temporal references, so that whatever
+/// the decoder keeps per instance (its picture store) grows well past what short sessions
+/// of small pictures reach.  Used by C17: replicas of such an instance must still agree.
+pub fn gen_store_pressure_session(rng: &mut Rng) -> Session {
+    let mut s = Session { note: String::new(), pics: Vec::new(), events: Vec::new(), max_chunk: 0, screen: 0 };
+    let opts = 1 | ((rng.below(2) as u8) << 1);
+    let mut cfg = GenCfg::draw(rng, &[0, 1]);
+    cfg.density = 0;
+    cfg.stuff16 = 0;
+    cfg.pei16 = 0;
+    cfg.mb_weights = [60, 2, 1, 1, 1, 0, 1];
+    let few_large = rng.chance(3, 5);
+    let (w, h) = if few_large { *rng.pick(&[(352u16, 288u16), (640, 480), (704, 576), (400, 300), (1024, 64), (320, 240)]) } else { *rng.pick(&[(128u16, 96u16), (64, 48), (176, 144)]) };
+    let n = if few_large { 3 + rng.usize(6) } else { 36 + rng.usize(45) };
+    let version = if cfg.flavour == 1 { 1 } else { 0 };
+    let fl = Flavour::Sorenson { version, size_code: 1 };
+    s.events.push(Ev::New { d: 0, opts });
+    let mut tr = rng.byte();
+    for k in 0..n {
+        tr = tr.wrapping_add(1);
+        let ptype = if k == 0 || rng.chance(1, 6) { PType::I } else if rng.chance(1, 8) { PType::Disposable } else { PType::P };
+        let flq = requalify(rng, &fl, w, h);
+        let spec = gen_picture(rng, &cfg, flq, ptype, w, h, tr);
+        let p = PlanPic::from_spec(spec, vec![], "valid picture").0;
+        let len = p.bytes.len();
+        s.pics.push(p);
+        let pi = s.pics.len() - 1;
+        s.events.push(Ev::Reader { d: 0 });
+        s.events.push(Ev::Feed { d: 0, pic: pi, from: 0, to: len });
+        s.events.push(Ev::Decode { d: 0 });
+        if rng.chance(1, 30) {
+            s.events.push(Ev::Cleanup { d: 0 });
+        }
+    }
+    s.note = format!("store pressure: {n} valid pictures of {w}x{h} on one decoder");
+    s
+}
+
 pub fn gen_session(rng: &mut Rng, mix: &Mix) -> Session {
     if mix.max_events >= 14 && rng.chance(1, 4000) {
         return gen_large_session(rng); // thorough tiers only
